@@ -75,6 +75,17 @@ def tripped_latch(ctx, repo, rule="C30.D2-tripped-follows-decision"):
             ctx.ob(rule, cname(call, s), w is None and val in (True, False),
                    "" if w is None else "the tripped flag is updated outside the branch that decided it: a value in the dead band between the suspend and "
                    "resume conditions clears (or sets) it although nothing was released", nontrivial=True, witness=w, where=where(call, s))
+    # ... and the latch is set on EVERY way out of the suspend branch, the failing ones included: get_futures() gates the next plan on it
+    tests = [i for i, n in enumerate(g.nodes) if n.kind == "test" and n.ast is not None and _has_conjunct(n.ast, "self._should_suspend(value)")]
+    for t in tests:
+        starts = [v for v, lab in g.succ[t] if lab == "T"]
+        w = g.must_pass(starts, lambda n: n.kind == "stmt" and isinstance(n.stmt, ast.Assign) and any(A.chain(x) == "self._tripped" for x in n.stmt.targets)
+                        and isinstance(n.stmt.value, ast.Constant) and n.stmt.value.value is True)
+        ctx.ob(rule, cname(call, None, "every exit of the suspend branch (raising ones too) has set the latch"), w is None,
+               "" if w is None else "the suspend branch can be left - e.g. by the RuntimeError when the event cannot be created in time - without the suspender being marked "
+               "tripped: the signal is in the suspend condition but the next plan is not held", nontrivial=True, witness=w[-6:] if w else None, where=where(call, g.nodes[t].stmt))
+    if not tests:
+        ctx.ob(rule, cname(call, None, "suspend branch"), False, "the test on _should_suspend(value) was not found (anchor lost)", where=where(call, call.node))
     consts = {s.value.value for s in A.walk_stmts(call.node.body) if isinstance(s, ast.Assign) and any(A.chain(t) == "self._tripped" for t in A.targets_of(s))
               and isinstance(s.value, ast.Constant)}
     ok = consts == {True, False}
@@ -243,6 +254,9 @@ CLAIM = {
 
 S = "suspenders.py"
 MUTANTS = [
+    ("the latch is set only after the event could be created (seeds C30-c / C31-c)",
+     [(S, "                self._tripped = True\n                # this does dirty things with internal state\n", "                # this does dirty things with internal state\n"),
+      (S, "                        raise RuntimeError(\"Could not create the \")\n", "                        raise RuntimeError(\"Could not create the \")\n                    self._tripped = True\n")], "C30.D2"),
     ("floor trips at the threshold", [(S, "    def _op(self):\n        return operator.lt", "    def _op(self):\n        return operator.le")], "C30.D1"),
     ("outside-band resume includes the edges", [(S, "class SuspendWhenOutsideBand(_SuspendBandBase):", "class SuspendWhenOutsideBand(_SuspendBandBase):"),
                                                 (S, "    def _should_resume(self, value):\n        return self._bot < value < self._top\n\n    def _should_suspend(self, value):\n        return not (self._bot < value < self._top)",
